@@ -630,14 +630,27 @@ async def _async_gen(st: SrcState):
         raise
 
 
-FLAVOURS_SYNC = ("list", "tuple", "getitem_seq", "sync_iter", "sync_gen", "sync_iterable")
+FLAVOURS_SYNC = ("list", "tuple", "getitem_seq", "sync_iter", "sync_gen", "sync_iterable", "tuple_sub", "list_sub")
 FLAVOURS_ASYNC = ("async_gen", "async_class", "async_class_bare", "async_class_full", "async_class_asend",
                   "async_class_future", "async_class_proxy", "async_class_lazy", "async_iterable", "async_class_lateclose", "async_class_delegating", "async_class_plainnext", "async_class_eagerstart")
 FLAVOURS = FLAVOURS_SYNC + FLAVOURS_ASYNC
 
 
+class TupleSub(tuple):
+    """A tuple SUBCLASS (a record type, a namedtuple): iterated like any tuple; the builtins build a plain tuple / list
+    / set from it, they do not hand the instance itself back."""
+
+
+class ListSub(list):
+    """A list subclass."""
+
+
 def make_source(st: SrcState, flavour: str) -> Any:
     """Build the object handed to the library for ``st`` in the given flavour."""
+    if flavour == "tuple_sub":
+        return TupleSub(st.items)
+    if flavour == "list_sub":
+        return ListSub(st.items)
     if flavour == "list":
         return list(st.items)
     if flavour == "tuple":
